@@ -89,6 +89,10 @@ func c07Doc(t *core.Tape, w *world.World, rep *world.QEReport, version int) *wor
 		if iv < 0 {
 			iv = 0
 		}
+		if t.Chance(1, 8) {
+			// the JSON number is 32 bits wide, the report's ISVSVN only 16: such a level can never be reached
+			iv = []int{65536, 65536 + int(rep.IsvSvn)%5, 131072, 65536 + int(rep.IsvSvn), 0xffffffff}[t.Draw(5)]
+		}
 		st := world.Statuses[t.Draw(len(world.Statuses))]
 		if t.Chance(2, 5) {
 			st = "UpToDate"
